@@ -2,6 +2,7 @@
 normalisation it performs: the norm enters as the parameter n, n*n = w^2+x^2+y^2+z^2), and the
 per-branch bodies of rotation_matrix_to_quaternion are checked by correspondence only."""
 import numpy as np
+from fractions import Fraction
 
 import symtorch as st
 import trlib
@@ -49,5 +50,71 @@ def generate(loader):
         item = np.vectorize(lambda e: trlib.rename(e, ren), otypes=[object])(mb.a[k])
         if not trlib.same_tensor(item, m.a):
             raise TraceError("batched quaternion item differs")
+    out += m2q_branches(kor)
     out.append("End Gen.\n")
     return "\n".join(out)
+
+
+def _split(e, conds=()):
+    """leaves of a nested if-then-else expression with the conditions leading to them"""
+    if e.op == "ite":
+        return _split(e.args[1], conds + ((st.to_text(e.args[0]), True),)) + _split(e.args[2], conds + ((st.to_text(e.args[0]), False),))
+    return [(conds, e)]
+
+
+def m2q_branches(kor):
+    """rotation_matrix_to_quaternion: per branch of its nested torch.where, the four numerators and the square-root
+    argument (q = numerators / (2 sqrt(arg)); the pivot component 0.25 * sq is arg / sq).  eps is kept symbolic."""
+    m = st.symmat("m", 3, 3)
+    st.SYMBOLIC_COND = True
+    try:
+        q = kor.rotation_matrix_to_quaternion(m, eps=E.var("eps"))
+    finally:
+        st.SYMBOLIC_COND = False
+    if q.shape != (4,):
+        raise TraceError(f"rotation_matrix_to_quaternion shape {q.shape}")
+    per_comp = [_split(q.a[i]) for i in range(4)]
+    nb = len(per_comp[0])
+    if nb != 4 or any(len(c) != nb for c in per_comp):
+        raise TraceError(f"expected 4 branches, found {[len(c) for c in per_comp]}")
+    out = []
+    for k in range(nb):
+        conds = per_comp[0][k][0]
+        if any(per_comp[i][k][0] != conds for i in range(4)):
+            raise TraceError("components branch on different conditions")
+        nums, arg, pivot, sq_txt = [], None, None, None
+        for i in range(4):
+            e = per_comp[i][k][1]
+            if e.op == "div":
+                num, den = e.args
+                if den.op != "ite" or den.args[0].op != "cmp" or den.args[0].args[0] != "lt" or not den.args[2].same(den.args[0].args[1]):
+                    raise TraceError("denominator is not clamp(sq, min=tiny)")
+                sq = den.args[2]
+                nums.append(num)
+            else:
+                # pivot: 0.25 * (sqrt(arg) * 2)
+                if not (e.op == "mul" and e.args[0].is_const() and e.args[0].value() == Fraction(1, 4)):
+                    raise TraceError(f"unexpected pivot component {e}")
+                sq = e.args[1]
+                if pivot is not None:
+                    raise TraceError("two pivot components in one branch")
+                pivot = i
+                nums.append(None)
+            if not (sq.op == "mul" and sq.args[0].op == "fn" and sq.args[0].args[0] == "sqrt" and sq.args[1].is_const() and sq.args[1].value() == 2):
+                raise TraceError(f"sq is not sqrt(arg) * 2: {sq}")
+            if sq_txt is None:
+                sq_txt, arg = st.to_text(sq), sq.args[0].args[1]
+            elif st.to_text(sq) != sq_txt:
+                raise TraceError("components of one branch divide by different square roots")
+        if pivot is None:
+            raise TraceError("branch without pivot component")
+        nums[pivot] = arg     # 0.25 * sq = arg / sq
+        body = "[" + "; ".join(st.to_coq(x) for x in nums) + "]"
+        ctext = " and ".join(("" if v else "not ") + c for c, v in conds)
+        out.append(f"(* branch {k}: {ctext} *)")
+        out.append(trlib.emit_raw_match(f"gen_m2q_num_{k}", "m", m, "list K", body, "[]").replace(
+            f"Definition gen_m2q_num_{k} (m :", f"Definition gen_m2q_num_{k} (eps : K) (m :"))
+        out.append(trlib.emit_raw_match(f"gen_m2q_arg_{k}", "m", m, "K", st.to_coq(arg), "0").replace(
+            f"Definition gen_m2q_arg_{k} (m :", f"Definition gen_m2q_arg_{k} (eps : K) (m :"))
+        out.append(f"Definition gen_m2q_pivot_{k} : nat := {pivot}%nat.\n")
+    return out
